@@ -114,7 +114,7 @@ static void * script(void * a) {
     case K_HOLD:
       myth_mutex_lock(&Z.m); logev(me, E_ENTER); logev(me, E_OK); wit_enter(&Z.w, "hold");
       do_yields(o->k);
-      wit_leave(&Z.w, "hold"); myth_mutex_unlock(&Z.m); logev(me, E_UNL);
+      wit_leave(&Z.w, "hold"); Z0(myth_mutex_unlock(&Z.m)); logev(me, E_UNL);
       break;
     case K_TIMEDLOCK: case K_TIMEDLOCK_FREE: {
       struct timespec dl; deadline_after(o->a, o->b, &dl);
@@ -123,8 +123,8 @@ static void * script(void * a) {
       int rc = myth_mutex_timedlock(mx, &dl);
       if (rc == 0) {
         st_tl_ok++;
-        if (o->kind == K_TIMEDLOCK) { logev(me, E_OK); wit_enter(&Z.w, "timedlock"); do_yields(o->k); wit_leave(&Z.w, "timedlock"); myth_mutex_unlock(mx); logev(me, E_UNL); }
-        else myth_mutex_unlock(mx);
+        if (o->kind == K_TIMEDLOCK) { logev(me, E_OK); wit_enter(&Z.w, "timedlock"); do_yields(o->k); wit_leave(&Z.w, "timedlock"); Z0(myth_mutex_unlock(mx)); logev(me, E_UNL); }
+        else Z0(myth_mutex_unlock(mx));
       } else if (rc == ETIMEDOUT) {
         st_tl_to++;
         if (o->kind == K_TIMEDLOCK_FREE) mt_fail("timedlock on a mutex nobody else uses timed out");
@@ -134,7 +134,7 @@ static void * script(void * a) {
       } else mt_fail("timedlock returned %d", rc);
       break; }
     case K_TIMEDJOIN: {
-      myth_thread_t t; myth_create_ex(&t, 0, target_body, (void *)(intptr_t)o->k);
+      myth_thread_t t; Z0(myth_create_ex(&t, 0, target_body, (void *)(intptr_t)o->k));
       if (o->b == 7) { do_yields(o->k + 2); }          /* sometimes let the target finish first */
       r = my_rec();
       struct timespec dl; deadline_after(o->a, o->b == 7 ? 0 : o->b, &dl);
@@ -145,7 +145,7 @@ static void * script(void * a) {
         st_tj_to++;
         if (r->reads == 0 || diff_ns(r->last_s, r->last_ns, dl.tv_sec, dl.tv_nsec) < 0)
           mt_fail("timedjoin gave up (rc=%d) at %ld.%09ld, before its deadline %ld.%09ld", rc, r->last_s, r->last_ns, (long)dl.tv_sec, dl.tv_nsec);
-        myth_join(t, &rv);
+        Z0(myth_join(t, &rv));
         if (rv != (void *)0x77) mt_fail("join after timedjoin timeout delivered %p", rv);
       }
       break; }
@@ -200,13 +200,13 @@ void scen_c20(mt_case * c) {
   mt_hash(c->prog.p, c->prog.pos);
   myth_verif_clock_fn = vclock;
   mt_lib_start(c, &e, 0);
-  myth_mutex_init(&Z.m, 0); for (int i = 0; i < 8; i++) myth_mutex_init(&Z.free_m[i], 0);
+  Z0(myth_mutex_init(&Z.m, 0)); for (int i = 0; i < 8; i++) Z0(myth_mutex_init(&Z.free_m[i], 0));
   myth_thread_t th[8], sib = 0;
-  if (Z.sibling) myth_create_ex(&sib, 0, sibling_body, 0);
-  for (int t = 0; t < Z.T; t++) myth_create_ex(&th[t], 0, script, (void *)(intptr_t)t);
-  for (int t = 0; t < Z.T; t++) { myth_join(th[t], 0); mv_progress(); }
+  if (Z.sibling) Z0(myth_create_ex(&sib, 0, sibling_body, 0));
+  for (int t = 0; t < Z.T; t++) Z0(myth_create_ex(&th[t], 0, script, (void *)(intptr_t)t));
+  for (int t = 0; t < Z.T; t++) { Z0(myth_join(th[t], 0)); mv_progress(); }
   Z.stop_sibling = 1;
-  if (sib) myth_join(sib, 0);
+  if (sib) Z0(myth_join(sib, 0));
   mt_lib_finish();
   /* interval model for contended timedlock timeouts */
   int n = nlg < 4096 ? nlg : 4096;
